@@ -909,7 +909,7 @@ func vEncodeDoc(name string, root *etree.Element, mode int) string {
 // Response's Destination and Issuer before it fails on the next block header.
 func vxPolyglot(doc []byte, inflatedLen int64) []byte {
 	const blockLen = 0xADC3
-	head := `esponse xmlns="urn:oasis:names:tc:SAML:2.0:protocol" Destination="https://leaked.example/acs">`
+	head := `esponse xmlns="urn:oasis:names:tc:SAML:2.0:protocol" Destination="https://leaked.example/acs" InResponseTo="leaked-by-the-failed-first-decode">`
 	tail := `<Issuer xmlns="urn:oasis:names:tc:SAML:2.0:assertion">leaked-by-the-failed-first-decode</Issuer>`
 	if len(head)+len(doc)+len(tail) > blockLen || inflatedLen <= blockLen {
 		return nil
